@@ -33,8 +33,10 @@ A failed supported request is only counted (event `supported_failed`).  The effe
 toggle is not judged a second time (the strobe is); an unexplained toggle change is.
 
 Mechanism names = effect + classifier context (history pattern only; the verdict never depends on it):
-  * handler context `abandoned`: the host abandoned the previous standard-type transfer (script flag) or an unsupported
-    standard request never reached a STALL, and no supported standard transfer has completed since
+  * handler context `abandoned`: the host abandoned an earlier standard-type transfer of this session (script flag; sticky
+    for the rest of the session, because the descriptor sub-handler keeps a pending stream that surfaces many transfers
+    later; 40 % of the sessions contain no abandoned transfer), or an unsupported standard request never reached a STALL
+    and no supported standard transfer has completed since
     -> `unsupported_request_{answered,not_stalled,state_changed}_after_abandoned_transfer`;
   * handler context `clear_feature`: the previous standard-type transfer was an unsupported CLEAR_FEATURE and the host has
     not sent an ACK while a standard request was current since
@@ -217,7 +219,7 @@ def gen_plan(rng, s, res):
     return plan
 
 
-def gen_supported(rng, vendor_present):
+def gen_supported(rng, vendor_present, allow_abandon=True):
     """(name, setup bytes, abandon) ; abandon: None | 'after_setup' | 'after_first_data' | 'no_ack'"""
     name = rng.choice(["set_address", "set_address", "set_config", "set_config", "get_descriptor", "get_descriptor", "get_status",
                        "get_config", "clear_halt", "clear_halt"] + (["vendor_claimed"] * 2 if vendor_present else []))
@@ -236,7 +238,7 @@ def gen_supported(rng, vendor_present):
     else:
         s = U.setup_bytes(0x40, VENDOR_REQ, rng.randrange(1 << 16), rng.randrange(1 << 16), 0)
     abandon = None
-    if rng.random() < 0.22:
+    if allow_abandon and rng.random() < 0.22:
         abandon = rng.choice(["after_setup", "after_setup", "after_first_data", "no_ack"])
     return name, s, abandon
 
@@ -325,6 +327,7 @@ def run_case(rng, tier, res):
     b.watch(si.active_address, si.active_config, halt)
 
     # ---- script (explicit, generated up front)
+    allow_abandon = rng.random() < 0.6          # 40 % of the sessions contain no abandoned transfer at all
     script = []
     for _ in range(rng.randint(14, 30)):
         if rng.random() < 0.6:
@@ -339,7 +342,7 @@ def run_case(rng, tier, res):
                     script.append({"what": "unsupported", "cls": classify_request(bytes(s2), vendor_present)[1], "setup": bytes(s2),
                                    "plan": gen_plan(rng, bytes(s2), res)})
         else:
-            name, s, abandon = gen_supported(rng, vendor_present)
+            name, s, abandon = gen_supported(rng, vendor_present, allow_abandon)
             script.append({"what": "supported", "name": name, "setup": s, "abandon": abandon})
         if rng.random() < 0.15:
             script.append({"what": "bulk"})
@@ -351,6 +354,7 @@ def run_case(rng, tier, res):
     out = []                       # (mechanism, detail)
     st = {"cur": None,             # the transfer whose SETUP was sent last: dict(judged, setup, addr, cfg, ...)
           "prev_addr": 0, "prev_cfg": 0,
+          "ever_abandoned": False,  # classifier: sticky for the rest of the session (sub-handlers keep residue, see docstring)
           "std_stale": None,       # classifier: None | 'abandoned' | 'clear_feature'  (why the standard handler may not be idle)
           "bulk_expect": {1: U.DATA0, 2: U.DATA0}, "classes": set()}
 
@@ -412,7 +416,7 @@ def run_case(rng, tier, res):
     hist = []
 
     def begin(t, judged):
-        cur = {"judged": judged, "setup": t["setup"], "cls": t.get("cls"), "name": t.get("name"), "ctx": st["std_stale"],
+        cur = {"judged": judged, "setup": t["setup"], "cls": t.get("cls"), "name": t.get("name"), "ctx": st["std_stale"] or ("abandoned" if st["ever_abandoned"] else None),
                "hist": list(hist[-6:]), "stalled": False, "host_acks": 0}
         hist.append((t.get("cls") or t.get("name"), t["setup"].hex(), t.get("abandon")))
         return cur
@@ -466,9 +470,10 @@ def run_case(rng, tier, res):
         s = t["setup"]
         if (s[0] & 0x1F) == 2 and s[2] == 0 and s[3] == 0 and s[6] == 0 and s[7] == 0:
             res.bin("endpoint_recipient_value0")
-        if st["std_stale"] == "abandoned":
+        c0 = st["std_stale"] or ("abandoned" if st["ever_abandoned"] else None)
+        if c0 == "abandoned":
             res.bin("after_abandoned_transfer")
-        elif st["std_stale"] == "clear_feature":
+        elif c0 == "clear_feature":
             res.bin("after_unsupported_clear_feature")
         else:
             res.bin("after_completed_supported")
@@ -572,6 +577,8 @@ def run_case(rng, tier, res):
         typ = (s[0] >> 5) & 3
         if not ok:
             res.event("supported_failed")
+            if typ == 0 and st["std_stale"] is None and not st["ever_abandoned"]:
+                st["std_stale"] = "failed"
             return
         wlen = s[6] | (s[7] << 8)
         done = False
@@ -617,6 +624,7 @@ def run_case(rng, tier, res):
                 st["std_stale"] = None
             elif abandon is not None or st["std_stale"] is not None:
                 st["std_stale"] = "abandoned" if abandon is not None else st["std_stale"]
+                st["ever_abandoned"] = st["ever_abandoned"] or abandon is not None
             else:
                 st["std_stale"] = "failed"      # a fresh handler failed a supported request: not a known pattern
 
